@@ -83,7 +83,7 @@ TEXT = {
         "engine": "vmux (SIM)",
         "technique": "fault enumeration over recorded executions: one re-execution per (message index, fault kind); pending-operation outcome oracle; flush-on-drop order oracle",
         "design_ref": "DESIGN.md §4 C08, appendix A",
-        "level_text": "For every message index of every base execution and each of 8 fault kinds the real endpoint is re-run with the fault injected at that point; the run must reach quiescence with nothing pending and with outcomes from DESIGN appendix A.3. Drop-flush runs compare queued vs delivered frames, also with datagrams and a stream request from the peer arriving at the moment of the drop. Enumeration of crash points over explored executions, not of all executions.",
+        "level_text": "For every message index of every base execution and each of 8 fault kinds the real endpoint is re-run with the fault injected at that point; the run must reach quiescence with nothing pending and with outcomes from DESIGN appendix A.3; operations issued after the task returned must resolve at once with Closed. Drop-flush runs compare queued vs delivered frames, also with datagrams and a stream request from the peer arriving at the moment of the drop. Enumeration of crash points over explored executions, not of all executions.",
         "level_note": "Base executions are sampled (seeded); the cut is at message granularity of the endpoint's WebSocket, not inside a frame.",
     },
     "C11": {
@@ -97,7 +97,7 @@ TEXT = {
         "engine": "vmux (SIM)",
         "technique": "offline history checker matching each bind result to the peer application's decision for that very request; scripted-RNG id re-use",
         "design_ref": "DESIGN.md §4 C15, appendix A",
-        "level_text": "Each request's result is compared with the logged decision (accept/reject/drop/never/binds disabled), the fields and flow id shown to the peer with the request, and ids are re-issued immediately after resolution and at quiescent points; bind hosts of 0-39 bytes; the connection task must not end on its own. Exploration.",
+        "level_text": "Each request's result is compared with the logged decision (accept/reject/drop/never/binds disabled), the fields and flow id shown to the peer with the request, and ids are re-issued immediately after resolution and at quiescent points; bind hosts of 0-39 bytes; requests issued while or after the connection ends must resolve (Closed or false); the connection task must not end on its own. Exploration.",
         "level_note": "Requests are matched by unique port; the responder logs its decision before replying.",
     },
     "C16": {
@@ -118,14 +118,14 @@ TEXT = {
         "engine": "vmux (MICRO, Miri in thorough)",
         "technique": "runtime monitor over hook-level interleavings: turn-taking scheduler enumerates every total order of hook events on real threads; free-running two-thread stress judged by exact credit conservation; Miri (UB / data-race / weak-memory interpreter) on a sample",
         "design_ref": "DESIGN.md §4 C12, appendix A",
-        "level_text": "All total orders of the hook events of 1-2 writer polls against acknowledge and/or close on other threads are executed for real (42 configurations, also with a third application thread calling the public do_shutdown(); depth-first by replay) and judged by the final-state oracle W1-W4 (conservation, no lost wake-up, fail after close, frame only with credit). A free-running writer thread against a granting thread (20 000 grants per round) is judged by exact conservation. Exhaustive at hook granularity in the thorough tier; exploration below that granularity.",
+        "level_text": "All total orders of the hook events of 1-2 writer polls against acknowledge and/or close on other threads are executed for real (42 configurations, also with a third application thread calling the public do_shutdown(); depth-first by replay) and judged by the final-state oracle W1-W4 (conservation, no lost wake-up, fail after close, frame only with credit). One or two free-running writer threads against a granting thread (20 000 grants per round) is judged by exact conservation. Exhaustive at hook granularity in the thorough tier; exploration below that granularity.",
         "level_note": "Interleavings between hook points and non-x86 memory-model behaviours are only sampled (Miri, repeated native runs).",
     },
     "C13": {
         "engine": "vmux (SIM)",
         "technique": "runtime monitor of the real bridge future over a scripted local stream and a real endpoint pair; position-addressed data, credit monitor, outcome and promptness oracle in virtual time",
         "design_ref": "DESIGN.md §4 C13, appendix A",
-        "level_text": "Each execution drives into_copy_bidirectional_with_buf with a seeded script of chunk sizes, Pending points (woken / never woken), partial writes, a local shutdown that needs 1-4 polls, EOF and error positions on read/write/flush/shutdown, against a far application that finishes, aborts or starves; bytes, counts, half-close propagation (Finish on the wire within 3 ms of virtual time after the local EOF, with or without credit), credit use in both directions (every Push has a unit, every unit became a Push) and prompt error completion are checked.",
+        "level_text": "Each execution drives into_copy_bidirectional_with_buf with a seeded script of chunk sizes, Pending points (woken / never woken), partial writes, a local shutdown that needs 1-4 polls, a local flush that needs several polls or never completes, EOF and error positions on read/write/flush/shutdown, against a far application that finishes, aborts or starves; bytes, counts, half-close propagation (Finish on the wire within 3 ms of virtual time after the local EOF, with or without credit), credit use in both directions (every Push has a unit, every unit became a Push) and prompt error completion are checked.",
         "level_note": "Promptness is decided by quiescence in virtual time, not by wall clock.",
     },
     "C14": {
@@ -139,7 +139,7 @@ TEXT = {
         "engine": "ve2e (E2E)",
         "technique": "runtime monitor over real TLS handshakes: full configuration matrix executed through run_listener + tls_connect, recording client-certificate resolver, identity reload with a live connection",
         "design_ref": "DESIGN.md §4 C17",
-        "level_text": "All 72 cells of the statement's matrix are executed as real handshakes followed by an HTTP exchange and compared with the reference truth table; a recording resolver observes whether the server asks for a certificate; reload cycles (through reload_tls_identity, and through the operator's path server_main + replaced files + SIGUSR1, three or more in a row, with and without a client CA) check that new handshakes see the new identity, that the client-certificate policy is unchanged after every reload, and that an established connection keeps working. Exhaustive over the matrix.",
+        "level_text": "All 72 cells of the statement's matrix are executed as real handshakes followed by an HTTP exchange and compared with the reference truth table; a recording resolver observes whether the server asks for a certificate; a 12-cell matrix of the server name a real client asks for (client_main_inner with --tls-server-name / --hostname / neither); probes with CA bundles that contain no certificate; reload cycles (through reload_tls_identity, and through the operator's path server_main + replaced files + SIGUSR1, three or more in a row, with and without a client CA) check that new handshakes see the new identity, that the client-certificate policy is unchanged after every reload, and that an established connection keeps working. Exhaustive over the matrix.",
         "level_note": "Key types: ECDSA P-256 (quick), plus P-384 and Ed25519 (thorough); native-tls build is not exercised.",
     },
     "C19": {
@@ -153,7 +153,7 @@ TEXT = {
         "engine": "ve2e (E2E) + vmux (SIM)",
         "technique": "runtime monitor over real client/server executions on loopback: scripted local clients and targets, position-addressed payloads, per-conversation byte-stream and end-of-direction oracle, UDP tag/source/duplicate/header oracle",
         "design_ref": "DESIGN.md §4 C01",
-        "level_text": "Conversations of six kinds enter through all eight TCP entry kinds (fixed port, Unix socket, SOCKS4/4a, SOCKS5 v4/v6/domain, HTTP CONNECT) with seeded sizes (0 to several windows), chunking and concurrency; UDP exchanges run through the UDP remote and SOCKS5 UDP ASSOCIATE with several local sockets at once, each association addressing two different targets. Conversations in which the local client goes away first (close while the target streams 48 MiB, with or without a prior half-close, with or without a pause) check that the target is not left blocked; their deterministic core (a peer that still has send credit is told within one round trip that the stream was let go) runs in the simulator (c01b). Every received byte is checked against the sender's position-addressed stream, half-close and close propagation are checked per direction, UDP replies per socket. Exploration under the OS scheduler.",
+        "level_text": "Conversations of six kinds enter through all eight TCP entry kinds (fixed port, Unix socket, SOCKS4/4a, SOCKS5 v4/v6/domain, HTTP CONNECT) with seeded sizes (0 to several windows), chunking and concurrency; UDP exchanges run through the UDP remote and SOCKS5 UDP ASSOCIATE with several local sockets at once, each association addressing two different targets. UDP clients that fall silent for 11 s (longer than the relay's idle time-out) and then resume must not stay black-holed. Conversations in which the local client goes away first (close while the target streams 48 MiB, with or without a prior half-close, with or without a pause) check that the target is not left blocked; their deterministic core (a peer that still has send credit is told within one round trip that the stream was let go) runs in the simulator (c01b). Every received byte is checked against the sender's position-addressed stream, half-close and close propagation are checked per direction, UDP replies per socket. Exploration under the OS scheduler.",
         "level_note": "No schedule control on real sockets; a hang needs a witness (process quiescence, or no byte of progress for 10 s on the connection), otherwise the run is inconclusive. One open known finding (target left hanging after half-close + pause + close), see known_findings.json and DESIGN.md 7.5.",
     },
 }
